@@ -490,17 +490,24 @@ func (e *Engine) mergeIface(c *Term, x, y IfaceV) (Value, bool) {
 	} else if y.Sym != nil {
 		s.T = y.Sym.T
 	}
+	s.CaseT = map[string]types.Type{}
+	closedSide := func(side IfaceV) bool { return side.Sym == nil || side.Sym.Closed }
+	s.Closed = closedSide(x) && closedSide(y)
 	add := func(side IfaceV) {
 		if side.Sym != nil {
 			for k, v := range side.Sym.Cases {
 				if _, dup := s.Cases[k]; !dup {
 					s.Cases[k] = v
+					if side.Sym.CaseT != nil {
+						s.CaseT[k] = side.Sym.CaseT[k]
+					}
 				}
 			}
 		} else if side.Dyn != nil {
 			k := types.TypeString(side.Dyn, nil)
 			if _, dup := s.Cases[k]; !dup {
 				s.Cases[k] = side.V
+				s.CaseT[k] = side.Dyn
 			}
 		}
 	}
